@@ -135,4 +135,11 @@ def program_cases(ctx, rnd, sets, layouts):
             if src is None:
                 continue
             out.append(('%s#%d/%s' % (label, k, lay), src, info['scopes']))
+            if any(x['t'] in ('unop', 'binop') for x in b['toks']) and k % 2 == 0:
+                rs = ('minus', 'dots', 'tilde')[(k // 2) % 3]
+                info2 = {}
+                lay2 = 'spaced' if lay == 'tight' else lay
+                src2 = progs.render(b, lay2, random.Random(ctx.seed * 1000003 + k), info=info2, respell=rs)
+                if src2 is not None and src2 != src:
+                    out.append(('%s#%d/%s/%s' % (label, k, lay2, rs), src2, info2['scopes']))
     return out
